@@ -339,25 +339,33 @@ def chomp : Bytes → Except DecodeErr Bytes
   | [] => .error .eof
   | b :: r => if isDelim b then .ok (b :: r) else chomp r
 
-/-- `MapAccess::next_key_seed` up to the key's opening quote: `.ok none` = the object ends here (`}` is the next
-byte, not consumed), `.ok (some r)` = `r` follows the opening quote of the next key. -/
+/-- the byte at which `next_key_seed` expects a key: `"` opens it (`r` = what follows the quote) -/
+def keyAt : Bytes → Except DecodeErr (Option Bytes × Bytes)
+  | [] => .error .eof
+  | c :: r2 =>
+    if c = 0x22 then .ok (some r2, [])
+    else if c = 0x7d then .error .trailingComma
+    else .error .keyMustBeAString
+
+/-- `MapAccess::next_key_seed` up to the key's opening quote: `.ok (none, rest)` = the object ends here (`}` is
+the first byte of `rest`, not consumed), `.ok (some r, _)` = `r` follows the opening quote of the next key.  A comma
+is taken only after the first entry (`first = false`); the first entry must follow directly. -/
 def nextKey (first : Bool) (bs : Bytes) : Except DecodeErr (Option Bytes × Bytes) :=
   match skipWs bs with
   | [] => .error .eof
   | b :: r =>
     if b = 0x7d then .ok (none, b :: r)
-    else
-      let pos : Except DecodeErr Bytes :=
-        if b = 0x2c ∧ first = false then .ok (skipWs r)
-        else if first then .ok (b :: r)
-        else .error .expectedCommaOrEnd
-      match pos with
-      | .error e => .error e
-      | .ok [] => .error .eof
-      | .ok (c :: r2) =>
-        if c = 0x22 then .ok (some r2, [])
-        else if c = 0x7d then .error .trailingComma
-        else .error .keyMustBeAString
+    else if b = 0x2c ∧ first = false then keyAt (skipWs r)
+    else if first then keyAt (b :: r)
+    else .error .expectedCommaOrEnd
+
+/-- `SeqAccess::next_element_seed` up to the element: where it starts and the new `first` flag.  A comma is
+always taken (also before the first element — the flag then stays set); without a comma only the first element
+may follow. -/
+def seqPos (first : Bool) (b : UInt8) (r : Bytes) : Except DecodeErr (Bytes × Bool) :=
+  if b = 0x2c then .ok (skipWs r, first)
+  else if first then .ok (b :: r, false)
+  else .error .expectedCommaOrEnd
 
 mutual
 /-- `deserialize_ignored_any`; `depth` = `remaining_depth` -/
@@ -386,11 +394,7 @@ def skipSeq : Nat → Nat → Bool → Bytes → Except DecodeErr Bytes
     | b :: r =>
       if b = 0x5d then .ok r
       else
-        let pos : Except DecodeErr (Bytes × Bool) :=
-          if b = 0x2c then .ok (skipWs r, first)
-          else if first then .ok (b :: r, false)
-          else .error .expectedCommaOrEnd
-        match pos with
+        match seqPos first b r with
         | .error e => .error e
         | .ok ([], _) => .error .eof
         | .ok (c :: r2, first') =>
